@@ -45,6 +45,7 @@ Definition serve_corr (o : pobs) (r : outcome) : bool :=
   | PStatus code allow, R405 a => Nat.eqb code 405 && set_eqb bytes_eqb allow a
   | PStatus code allow, R404 => Nat.eqb code 404 && match allow with [] => true | _ => false end
   | PPanicked, RPanic => true
+  | PNotServed, _ => true
   | _, _ => false
   end.
 
@@ -87,7 +88,7 @@ Definition check_case (c : case) : N :=
       (* two templates of one denco shape under one method, or a key Build rejects: Build errors are
          dropped by the router builder and the table content is unspecified; only the panic clause *)
       verdict true (forallb req_no_panic reqs)
-  | CClean p out => verdict (bytes_eqb (clean p) out) true
+  | CClean p out => verdict (bytes_eqb (clean p) out) (bytes_eqb (clean out) out)
   | CJoin a b out => verdict (bytes_eqb (path_join a b) out) true
   | CUnesc s out => verdict (opt_eqb bytes_eqb (path_unescape s) out) true
   end.
